@@ -212,6 +212,10 @@ func (s *Solver) ref(t *Term) string {
 		case "utdiv", "udiv":
 			s.send(fmt.Sprintf("(assert (and (=> (and (>= %s 0) (> %s 0)) (and (>= %s 0) (<= %s %s))) (=> (and (>= %s 0) (> %s %s)) (= %s 0)) (=> (= %s 1) (= %s %s)) (=> (and (> %s 0) (= %s %s)) (= %s 1))))",
 				a, b, name, name, a, a, b, a, name, b, name, a, a, a, b, name))
+			// (c*b) / b = c  for b != 0
+			if x := t.Args[0]; x.Op == "*" && x.Args[0].IsConst() && x.Args[1] == t.Args[1] {
+				s.send(fmt.Sprintf("(assert (=> (not (= %s 0)) (= %s %s)))", b, name, s.ref(x.Args[0])))
+			}
 		case "umod":
 			s.send(fmt.Sprintf("(assert (=> (> %s 0) (and (>= %s 0) (< %s %s))))", b, name, name, b))
 		}
